@@ -18,6 +18,32 @@ def _params(fn_node) -> List[str]:
     return ps[1:] if ps and ps[0] in ("self", "cls") else ps
 
 
+def _anonymise_running(t: tuple) -> tuple:
+    """`running(<name>, init)` marks the value an accumulator has while its loop runs; the accumulator's NAME is the
+    repository's choice and must not matter: names are replaced by acc0, acc1, ... in order of first appearance."""
+    names: List[str] = []
+
+    def collect(x):
+        if isinstance(x, tuple):
+            if len(x) == 3 and x[0] == "running" and isinstance(x[1], str):
+                if x[1] not in names:
+                    names.append(x[1])
+            for y in x:
+                collect(y)
+    collect(t)
+    if not names:
+        return t
+    mapping = {n: f"acc{i}" for i, n in enumerate(names)}
+
+    def rec(x):
+        if isinstance(x, tuple):
+            if len(x) == 3 and x[0] == "running" and isinstance(x[1], str):
+                return ("running", mapping[x[1]], rec(x[2]))
+            return tuple(rec(y) for y in x)
+        return x
+    return rec(t)
+
+
 def term_of_node(fn_node: ast.AST, call_hook=None, inline: Optional[Dict[str, ast.AST]] = None, extra_env=None) -> tuple:
     ps = _params(fn_node)
     args = [tm.sym(f"${i}") for i in range(len(ps))]
@@ -25,7 +51,7 @@ def term_of_node(fn_node: ast.AST, call_hook=None, inline: Optional[Dict[str, as
     all_ps = [a.arg for a in fn_node.args.posonlyargs + fn_node.args.args]
     if len(all_ps) != len(ps):
         args = [tm.sym("self")] + args
-    return tm.canon(ft.of_function(fn_node, args, extra_env=extra_env))
+    return _anonymise_running(tm.canon(ft.of_function(fn_node, args, extra_env=extra_env)))
 
 
 def term_of_fn(fn: FuncInfo, call_hook=None, inline=None) -> tuple:
@@ -53,7 +79,7 @@ def attr_term_of_node(fn_node: ast.AST, attr: str, call_hook=None, inline=None) 
     v = ft.final_env().get(f"self.{attr}")
     if v is None:
         return tm.atom_poly(("opaque", f"self.{attr} is not written"))
-    return tm.canon(v)
+    return _anonymise_running(tm.canon(v))
 
 
 def conform_attr(o, fn: FuncInfo, attr: str, refs: Sequence[str], what: str, call_hook=None, inline=None, node=None) -> str:
@@ -117,6 +143,20 @@ def _verdict(o, fn, t, rts, what, node):
     foreign = sorted(l for l in tm.leaves(t) - known if _is_foreign(l))
     if foreign:
         o.undecided(f"{what}: the code uses {foreign[:4]}, which no reference spelling of the formula mentions: not comparable", fn, node or fn.node)
+        return "undecided"
+    # A term that distinguishes MORE cases than any reference spelling (extra if-expressions: a fast path, an
+    # empty-input branch) is a restructuring the rewrite rules cannot be expected to fold back; a wrong special case
+    # would need a rule of its own (cf. the UNDECIDED shortcut of seed C16-min-degree-shortcut).
+    def _n_if(x):
+        n_ = 0
+        if isinstance(x, tuple):
+            if x and x[0] == "ifexp":
+                n_ += 1
+            for y in x:
+                n_ += _n_if(y)
+        return n_
+    if _n_if(t) > max(_n_if(rt) for rt in rts):
+        o.undecided(f"{what}: the code distinguishes more cases than the formula ({_n_if(t)} conditional(s)): not comparable", fn, node or fn.node)
         return "undecided"
     o.violated(fn, node or fn.node, f"{what}: code normalises to  {tm.show(t)[:600]}  but the formula is  {tm.show(rts[0])[:600]}",
                construct=tm.show(t)[:400])
